@@ -310,7 +310,7 @@ def run_shard(sh, rec):
 
 
 def explore(tier, seed):
-    return core.pmap(run_shard, ["conv"] + [("recovery", i) for i in range(len(RECOVERY))] + s1.configs(tier) + s1.long_configs(tier) + s1.bign_configs(tier) + s1.vlong_configs(tier), seed, progress="C12")
+    return core.pmap(run_shard, ["conv"] + [("recovery", i) for i in range(len(RECOVERY))] + s1.configs(tier) + s1.long_configs(tier) + s1.bign_configs(tier) + s1.vlong_configs(tier) + s1.near_tie_configs(tier), seed, progress="C12")
 
 
 def run_case(case):
